@@ -21,3 +21,18 @@ CHECKS = {
         "explanation": "theorems over all byte strings / all well-formed rule lists; stream ruletext compares ValidNamesSplit, ParseValidNameKV, GenValidKV, RM.Set/Get and the whole pipeline with the model and evaluates the spec on the implementation's output",
     },
 }
+
+NOT_YET = {}
+
+MANIFEST_TEXT = {
+    "C14": {
+        "technique": "Lean 4 theorems (loop invariant, structural induction) + differential correspondence",
+        "text": "Theorems for ALL byte strings / rule lists: the splitter returns the quote-aware pieces up to one trailing empty piece "
+                "(C14_split_refines), loses no byte (C14_split_noloss_all), never splits inside a quoted segment (C14_split_quoted), its byte stack never "
+                "exceeds one element (stack_le_one), and builder→RM.Set→RM.Get→splitter→parser recovers every well-formed rule list with the documented "
+                "wrapping and label (C14_roundtrip). The model is tied to /repo by the ruletext stream (200k cases quick) comparing every function and the "
+                "whole pipeline, with the spec evaluated on the implementation's own output.",
+        "note": "Trusted: Lean kernel; Spec.RuleText as reading of the property (Rule.wf is the documented shape: no , ' = | in keys, no | ' , in values except commas "
+                "in re patterns, no , ' in messages); transcription of strings.Index/Split/Join and UTF-8 decoding; differential testing bounds the model=code tie.",
+    },
+}
